@@ -298,4 +298,19 @@ theorem qpmin_perm (G : Matrix ι ι ℝ) (u w : ι → ℝ) (σ : Equiv.Perm ι
     rw [e, quad_submatrix]
     exact this
 
+/-- (P, C10) With a positive definite Gramian the solver output is a function of `(G, u)`, and
+that function is permutation-equivariant: the solution for the permuted problem is the permuted
+solution.  This discharges the hypothesis `hf` of `gramAgg_perm_invariant` for DualProj/UPGrad. -/
+theorem qpmin_perm_unique [DecidableEq ι] (G : Matrix ι ι ℝ) (hG : G.IsSymm)
+    (hpd : ∀ d : ι → ℝ, d ≠ 0 → 0 < d ⬝ᵥ (G *ᵥ d)) (u w w' : ι → ℝ) (σ : Equiv.Perm ι)
+    (h : IsQPMin G u w) (h' : IsQPMin (G.submatrix σ σ) (u ∘ σ) w') : w' = w ∘ σ := by
+  refine qpmin_unique (G.submatrix σ σ) (hG.submatrix σ) ?_ (u ∘ σ) w' (w ∘ σ) h'
+    ((qpmin_perm G u w σ).mpr h)
+  intro d hd
+  have e : d = (d ∘ σ.symm) ∘ σ := by ext i; simp
+  rw [e, quad_submatrix]
+  refine hpd _ fun h0 => hd ?_
+  rw [e, h0]
+  rfl
+
 end TorchJDSpec
